@@ -402,7 +402,7 @@ UNITS = [
          checks=[Check('step_order', 'hz_step_order', engine='Z', timeout=300)],
          preconditions=['step iterators: |step|, |address| <= 2^40, |element index| <= 2^20; the base iterator has any non-zero step of its own'],
          assumed=['memunit_distance of two step iterators is the memunit_distance of their bases (step_iterator.hpp, one line), i.e. the difference of their addresses']),
-] + bits.units('C03', sizes=((1, 'quick'), (3, 'quick'), (4, 'thorough'), (7, 'thorough'), (13, 'thorough')))
+] + bits.units('C03', sizes=((1, 'quick'), (3, 'quick'), (8, 'quick'), (4, 'thorough'), (7, 'thorough'), (13, 'thorough'), (16, 'thorough')))
 
 # ---------------------------------------------------------------------------------------------------------------------------------------
 # planar_pixel_iterator: operator[], distance_to, memunit_step, memunit_distance (planar_pixel_iterator.hpp)
@@ -494,6 +494,39 @@ int main(int argc, char** argv){ vr::parse(argc, argv); std::vector<unsigned cha
   if (chk(view(img), "contiguous") || chk(p, "padded rows") || chk(rotated180_view(view(img)), "rotated180") || chk(subsampled_view(view(img), 2, 1), "subsampled")) return 1;
   NOT_REPRODUCED("at(point) / at(x,y) agree with begin() + y*width + x and with every further move"); }
 '''
+
+# image_view::is_1d_traversable(): the view-level predicate the pixel algorithms branch on
+X_V1D = [X('view_is_1d', 'image_view.hpp', r'bool is_1d_traversable\(\) const\s*\{[^}]*?return (.*?);', kind='expr',
+           rules=[('R11.loc', r'_pixels\.is_1d_traversable\(width\(\)\)', 'LOC_IS_1D(self, self->w)', True), ('R11.h', r'\bheight\(\)', 'self->h', False), ('R11.w', r'\bwidth\(\)', 'self->w', False)])]
+V1D_C = r'''
+typedef struct { ptrdiff_t w, h; int64_t sx, sy; } gv_t;           /* view: dimensions, pixel step and row step of its locator (memory units) */
+/* memory_based_2d_locator::is_1d_traversable(width): row_size() == pixel_size() * width  (its contract, unit locator) */
+#define LOC_IS_1D(v, width) ((v)->sy == (v)->sx * (width))
+_Bool view_is_1d(const gv_t* self) { return @@view_is_1d@@; }
+#ifndef VERIF_NATIVE
+void hz_view_is_1d(void){ gv_t v; __CPROVER_assume(0 <= v.w && v.w <= ((ptrdiff_t)1 << 20) && 0 <= v.h && v.h <= ((ptrdiff_t)1 << 20) && -((int64_t)1 << 40) <= v.sx && v.sx <= ((int64_t)1 << 40) && -((int64_t)1 << 40) <= v.sy && v.sy <= ((int64_t)1 << 40));
+  __CPROVER_assert(!view_is_1d(&v) || v.sy == v.sx * v.w, "is_1d_traversable() is true only when stepping an x-iterator past the end of a row (width pixel steps) lands exactly one row step further - also for views of a single row, whose end() is begin() + one row step");
+  __CPROVER_assert(0, "VACUITY"); }
+#endif
+'''
+REPLAY_V1D = r'''
+#include <boost/gil.hpp>
+#include <vector>
+#include "vreplay.hpp"
+using namespace boost::gil;
+int main(int argc, char** argv){ vr::parse(argc, argv);
+  // fill_pixels on every one-row and multi-row window of a small image inside a canvas: only the window changes
+  for (int W = 1; W <= 6; W++) for (int H = 1; H <= 3; H++) for (int x0 = 0; x0 < W; x0++) for (int w = 1; x0 + w <= W; w++) for (int y0 = 0; y0 < H; y0++) for (int h = 1; y0 + h <= H && h <= 2; h++) {
+    std::vector<unsigned char> buf(W * H + 32, 7); gray8_view_t v = interleaved_view(W, H, (gray8_pixel_t*)(buf.data() + 16), W); auto win = subimage_view(v, x0, y0, w, h);
+    fill_pixels(win, gray8_pixel_t(200)); long cnt = 0; for_each_pixel(win, [&](gray8_pixel_t&) { cnt++; });
+    for (int i = 0; i < (int)buf.size(); i++) { int p = i - 16; bool in = p >= 0 && p < W * H && (p % W) >= x0 && (p % W) < x0 + w && (p / W) >= y0 && (p / W) < y0 + h;
+      if ((buf[i] == 200) != in) REPRODUCED("fill_pixels(subimage_view(%dx%d image, x=%d, y=%d, w=%d, h=%d)): byte %d of the buffer %s", W, H, x0, y0, w, h, p, in ? "inside the window was not filled" : "outside the window was written"); }
+    if (cnt != (long)w * h) REPRODUCED("for_each_pixel visited %ld pixels of a %dx%d window", cnt, w, h); }
+  NOT_REPRODUCED("pixel algorithms on sub-windows touch exactly the window"); }
+'''
+
+UNITS.append(Unit('view_is_1d', 'C03', V1D_C, extracts=X_V1D, replay=REPLAY_V1D, checks=[Check('view_is_1d', 'hz_view_is_1d', engine='Z', timeout=300)],
+                  preconditions=['view dimensions <= 2^20, |steps| <= 2^40'], assumed=['memory_based_2d_locator::is_1d_traversable(width) is row_size() == pixel_size() * width (unit locator)']))
 
 UNITS.append(Unit('view_at', 'C03', AT_C, extracts=X_AT, replay=REPLAY_AT, checks=[Check('at', 'hz_at', engine='Z', timeout=300)],
                   preconditions=['view dimensions 1..2^20'], assumed=['iterator + n is the iterator with 1-D index n more (unit it2d)']))
